@@ -102,10 +102,10 @@ def db_operation_facts(model, opname):
 
     fn = model.method("UnitDatabase", opname)
     from .terms import Resolver
-    from .srcmodel import own_nodes
+    from .srcmodel import own_nodes, program_order
 
     res = Resolver(model, fn)
-    all_rets = sorted((n for n in own_nodes(fn.node) if isinstance(n, ast.Return)), key=lambda n: n.lineno)
+    all_rets = sorted((n for n in own_nodes(fn.node) if isinstance(n, ast.Return)), key=program_order(fn.node))
     # a return delegates when its value is the call of one of the two shared routines, directly or through a local
     SHARED = ("_DoOperationWithSameQuantity", "_DoOperationResultingInNewQuantity")
 
